@@ -660,7 +660,11 @@ def random_recipe(rng, n, ngates, mode, meas):
         # a reporting entry is final for its wires, so later gates stay off them)
         det = mode in ("det", "detcnot")
         free = list(range(n))
-        todo = rng.sample(range(n), rng.randint(1, n))
+        # a TRAILING measurement built with collapse=True on two or three wires (shot-by-shot
+        # execution asked for by the user): its register, order and flag must survive
+        tcoll = rng.sample(range(n), rng.randint(2, min(3, n))) if n >= 2 and rng.random() < 0.3 else []
+        rest = [q for q in range(n) if q not in tcoll]
+        todo = rng.sample(rest, rng.randint(1 if rest and not tcoll else 0, len(rest)))
         slots = sorted(rng.choice([0, ngates, rng.randint(0, ngates), rng.randint(0, ngates)]) for _ in range(len(todo)))
         for step in range(ngates + 1):
             k = slots.count(step)
@@ -677,6 +681,15 @@ def random_recipe(rng, n, ngates, mode, meas):
                     q = rng.choice(free)
                     codes.append(f"gates.M({q}, collapse=True)")
                 codes.append(random_gate(rng, n, mode, on=free))
+        if tcoll:
+            first = len(codes)
+            while first > 0 and codes[first - 1].startswith("gates.M("):
+                first -= 1
+            name = f", register_name='c{reg}'" if rng.random() < 0.7 else ""
+            # (a measurement in another basis brings a rotation gate: behind the collapsing entry it would make
+            # it a mid-circuit one, which the routers split or refuse — K09-1 class, counted by collapse_split_probe)
+            pos = len(codes) if any("basis=" in c for c in codes[first:]) else rng.choice([first, len(codes)])
+            codes.insert(pos, f"gates.M({','.join(map(str, tcoll))}{name}, collapse=True)")
         return codes
     for _ in range(ngates):
         if meas == "mid" and rng.random() < 0.12:
@@ -1772,6 +1785,10 @@ def run_default(case):
             bits = case["inputs"][k % len(case["inputs"])]
             N = len(case["nodes"])
             try:
+                frequencies(ref, bits, nshots=6)
+            except Exception:
+                break    # qibo refuses to execute the untranspiled circuit itself (e.g. only collapsing measurements): nothing to compare
+            try:
                 r = c(initial_state=basis_state(list(bits) + [0] * (N - case["n"])), nshots=6)
             except Exception as e:
                 bad.append(("default:raises", f"{type(e).__name__}: {e}"))
@@ -1799,6 +1816,93 @@ def run_default(case):
                 break
     finally:
         _Global._backend, _Global._transpiler = old
+    return bad
+
+
+def run_platforms(case):
+    """a hardware provider exposes several platforms under ONE backend name: after every
+    set_backend(provider, platform=X) — whatever was selected, executed or asked for before —
+    the transpiler in force is built for X (its qubits, couplers, natives), and circuit()
+    hands the backend a circuit that is executable on X and reports the logical outcomes.
+    case: platforms = {name: (qubits, couplers, natives)}, steps = [(platform, touch, circuit | None)],
+    touch in 'execute' | 'get' | 'none'."""
+    import sys, types, qibo
+    PROVIDER = "c11fakehw"
+    old = (_Global._backend, _Global._transpiler)
+    oldmod = sys.modules.get(PROVIDER)
+    plats = case["platforms"]
+
+    class FakeHW(Stub):
+        def __init__(self, platform):
+            q, c, nat = plats[platform]
+            super().__init__(list(q), [tuple(e) for e in c], list(nat))
+            self.name = PROVIDER
+            self.platform = platform
+
+    class MetaBackend:
+        @staticmethod
+        def load(platform=None, **kw):
+            return FakeHW(platform)
+
+    mod = types.ModuleType(PROVIDER)
+    mod.MetaBackend = MetaBackend
+    sys.modules[PROVIDER] = mod
+    bad = []
+    try:
+        _Global._backend, _Global._transpiler = None, None
+        for k, (plat, touch, circ) in enumerate(case["steps"]):
+            qubits, couplers, natives = plats[plat]
+            where = f"step {k+1} of {[(p, t) for p, t, _ in case['steps']]} (platform {plat})"
+            qibo.set_backend(PROVIDER, platform=plat)
+            b = qibo.get_backend()
+            if getattr(b, "platform", None) != plat:
+                bad.append(("platform:backend", f"{where}: the backend in force is {b} / {getattr(b, 'platform', None)}"))
+                break
+            if touch == "none":
+                continue
+            nat = NativeGates[list(natives)]
+            D = build_graph(qubits, couplers)
+            if touch == "execute":
+                n = circ["n"]
+                c = build_circuit(n, circ["wire_names"], circ["gates"])
+                ref = build_circuit(n, circ["wire_names"], circ["gates"])
+                bits = circ["bits"]
+                try:
+                    r = c(initial_state=basis_state(list(bits) + [0] * (len(qubits) - n)), nshots=6)
+                except Exception as e:
+                    bad.append(("platform:raises", f"{where}: {type(e).__name__}: {e}"))
+                    break
+                out = b.seen[-1] if b.seen else None
+                if out is None or out.nqubits != len(qubits) or set(out.wire_names) != set(qubits):
+                    bad.append(("platform:placement", f"{where}: the executed circuit lives on {None if out is None else out.wire_names}, the platform has {qubits}"))
+                    break
+                for g in out.queue:
+                    if isinstance(g, gates.M):
+                        continue
+                    if len(g.qubits) == 2 and not D.has_edge(out.wire_names[g.qubits[0]], out.wire_names[g.qubits[1]]):
+                        bad.append(("platform:connectivity", f"{where}: {g.name} on {[out.wire_names[q] for q in g.qubits]} is not a coupler of the platform"))
+                        break
+                    if not (getattr(NativeGates, type(g).__name__, NativeGates.NONE) & nat):
+                        bad.append(("platform:decomposition", f"{where}: {g.name} is not native for {natives}"))
+                        break
+                fa = frequencies(ref, bits, nshots=6)
+                fb = (dict(r.frequencies(binary=True)), {regname_str(k2): dict(v) for k2, v in r.frequencies(binary=True, registers=True).items()})
+                if fa != fb:
+                    bad.append(("platform:samples", f"{where}: {fb} from circuit() on the platform, {fa} untranspiled"))
+            t = qibo.get_transpiler()
+            tn, te = set(map(repr, t.connectivity.nodes)) if t.connectivity is not None else None, \
+                {frozenset(map(repr, e)) for e in t.connectivity.edges} if t.connectivity is not None else None
+            if tn != set(map(repr, qubits)) or te != {frozenset(map(repr, e)) for e in couplers} or t.native_gates != nat:
+                bad.append(("platform:transpiler", f"{where}: the transpiler in force targets nodes {sorted(tn or [])} edges {sorted(map(sorted, te or []))} natives {t.native_gates}; "
+                            f"the platform has qubits {qubits} couplers {couplers} natives {natives}"))
+            if bad:
+                break
+    finally:
+        _Global._backend, _Global._transpiler = old
+        if oldmod is None:
+            sys.modules.pop(PROVIDER, None)
+        else:
+            sys.modules[PROVIDER] = oldmod
     return bad
 
 
@@ -1903,7 +2007,7 @@ def default_suite(ctx, rng):
         if all(isinstance(x, int) for x in nodes) and set(range(n)) <= set(nodes) and rng.random() < 0.4:
             wn = None
         case = {"nodes": nodes, "edges": edges, "natives_list": nat_lists[i % len(nat_lists)], "n": n, "wire_names": wn,
-                "gates": random_recipe(rng, n, rng.randint(1, 8), "det", "trailing"), "calls": rng.choice([1, 2]),
+                "gates": random_recipe(rng, n, rng.randint(1, 8), "det", rng.choice(["trailing", "rich"])), "calls": rng.choice([1, 2]),
                 "inputs": [[rng.randrange(2) for _ in range(n)] for _ in range(2)]}
         if i % 3 == 2:
             case["custom"] = rng.randrange(1, 1000)
@@ -1991,6 +2095,91 @@ def params_suite(ctx, rng):
             failing.append((case, bad))
     ctx.sample({"kind": "parameter-update history", "case": {k: case[k] for k in ("gates", "history", "route", "n")}})
     return failing
+
+
+def platforms_case(rng, i):
+    """two or three platforms of one provider: same qubit names with other couplers, other
+    names, other sizes, other natives; a history of selections with an execution, a
+    get_transpiler() or nothing in between."""
+    nat_lists = [["CZ", "GPI2", "RZ", "Z", "I", "M"], ["CZ", "U3", "RZ", "Z", "I", "M"], ["iSWAP", "GPI2", "RZ", "Z", "I", "M"]]
+    variant = ["couplers", "couplers", "names", "sizes", "natives"][i % 5]
+    shapes5 = ["line5", "star5", "ring5", "tee5"]
+    plats = {}
+    base_nodes, _ = label_device(rng, "line5", rng.choice(["id", "perm", "gap", "str"]))
+    nat0 = rng.choice(nat_lists)
+    for j in range(rng.choice([2, 2, 3])):
+        if variant == "couplers":
+            shape = shapes5[(i + j) % 4]
+            k, edges = SHAPES[shape]
+            names = list(base_nodes)
+            plats[f"p{j}"] = (names, [(names[a], names[b]) for a, b in edges], nat0)
+        elif variant == "natives":
+            k, edges = SHAPES["line5"]
+            names = list(base_nodes)
+            plats[f"p{j}"] = (names, [(names[a], names[b]) for a, b in edges], nat_lists[(i + j) % 3])
+        else:
+            shape = rng.choice(shapes5 if variant == "names" else ["line3", "line4", "ring4", "line5", "grid6", "star5"])
+            nodes, edges = label_device(rng, shape, rng.choice(["id", "perm", "gap", "str"]))
+            plats[f"p{j}"] = (nodes, edges, rng.choice(nat_lists))
+    names = list(plats)
+    seq = [rng.choice(names)]
+    for _ in range(rng.randint(1, 3)):
+        seq.append(rng.choice([x for x in names if x != seq[-1]] if rng.random() < 0.8 else names))
+    steps = []
+    for k, pl in enumerate(seq):
+        touch = "execute" if k == len(seq) - 1 else rng.choice(["execute", "execute", "get", "none"])
+        circ = None
+        if touch == "execute":
+            q = plats[pl][0]
+            n = rng.randint(1, len(q))
+            circ = {"n": n, "wire_names": rng.sample(list(q), n), "gates": random_recipe(rng, n, rng.randint(2, 7), "det", "trailing"),
+                    "bits": [rng.randrange(2) for _ in range(n)]}
+        steps.append((pl, touch, circ))
+    return {"platforms": plats, "steps": steps, "variant": variant}
+
+
+def collapse_split_probe(ctx):
+    """observation only (reported to the lead, K09-1 class): a multi-qubit collapse=True measurement
+    made non-trailing by the basis rotation of a later measurement is split by Sabre / ShortestPaths."""
+    try:
+        G = SPEC["build_graph"](range(3), [(0, 1), (1, 2)])
+        for R in (SPEC["ShortestPaths"], SPEC["Sabre"]):
+            c = Circuit(3)
+            c.add(gates.M(0, 1, register_name="c", collapse=True))
+            c.add(gates.M(2, basis=gates.X))
+            try:
+                out, _ = R(connectivity=G)(c)
+            except Exception:
+                ctx.stat("observed_midcircuit_collapse_refused")
+                continue
+            ms = [(g.register_name, len(g.qubits), g.collapse) for g in out.queue if isinstance(g, gates.M)]
+            ctx.stat("observed_midcircuit_collapse_kept" if ("c", 2, True) in ms else "observed_midcircuit_collapse_split")
+    except Exception:
+        pass
+
+
+def platforms_suite(ctx, rng):
+    env = dict(SPEC)
+    exec(compile(STUB_SRC, "<C11 stub>", "exec"), env)
+    failing = []
+    for i in range(300 if ctx.thorough else 50):
+        case = platforms_case(rng, i)
+        try:
+            bad = env["run_platforms"](case)
+        except Exception as e:
+            bad = [("harness", f"{type(e).__name__}: {e}")]
+        ctx.case(("platforms", case["variant"], tuple((p, t) for p, t, _ in case["steps"]), tuple(len(v[0]) for v in case["platforms"].values())))
+        ctx.stat("platform_histories")
+        ctx.stat("platform_switches", len(case["steps"]) - 1)
+        if bad:
+            failing.append((case, bad))
+    ctx.sample({"kind": "platform history", "case": {"platforms": case["platforms"], "steps": [(p, t) for p, t, _ in case["steps"]]}})
+    return failing
+
+
+def platforms_replay(case, kinds):
+    return (SPEC_SRC + STUB_SRC + "\ncase = " + repr(case) + "\nbad = run_platforms(case)\nprint(bad)\n"
+            + f"assert not [b for b in bad if b[0] in {sorted(kinds)!r}], bad\n")
 
 
 def params_replay(case, kinds):
@@ -2103,6 +2292,8 @@ def run(ctx):
     pbad = placer_direct_suite(ctx, rng)
     dbad = default_suite(ctx, rng)
     hbad = params_suite(ctx, rng)
+    qbad = platforms_suite(ctx, rng)
+    collapse_split_probe(ctx)
 
     # failing inputs on the real code ------------------------------------------------
     seen = set()
@@ -2160,6 +2351,16 @@ def run(ctx):
                           f"parameter history {case['history']}: {next(d for k, d in bad if k == kind)}"[:900],
                      params_replay(case, {kind}), expected="every execution reports the outcomes of the circuit with its current parameters",
                      observed=[list(b) for b in bad][:4], broken=["C11_search_execute_history"])
+    seen_q = set()
+    for case, bad in qbad:
+        for kind in sorted({k for k, _ in bad}):
+            key = "default-transpiler:" + kind
+            if key in seen_q:
+                continue
+            seen_q.add(key)
+            ctx.fail(key, f"platforms {case['platforms']} of one provider selected one after the other with set_backend: {next(d for k, d in bad if k == kind)}"[:900],
+                     platforms_replay(case, {kind}), expected="after every set_backend the transpiler in force is built for the selected platform",
+                     observed=[list(b) for b in bad][:4], broken=["C11_search_platform_switch"])
     # correspondence failures: name a concrete input of the suite as the failing input if the
     # search did not find one (model and code disagree = one of them is not what the theorems are about)
     for suite, obname in (("star", "C11_corr_star_placer"),):
@@ -2191,6 +2392,7 @@ def run(ctx):
     ctx.ob("C11_corr_restrict", not st.bad.get("restrict"), "correspondence", st.detail.get("restrict", ""))
     ctx.ob("C11_corr_sorted", not st.bad.get("sort"), "correspondence", st.detail.get("sort", ""))
     ctx.ob("C11_search_shared_passes", not sbad, "search", f"{len(sbad)} failing cases; first: {sbad[0][1][:2]}" if sbad else "")
+    ctx.ob("C11_search_platform_switch", not qbad, "search", f"{len(qbad)} failing cases; first: {qbad[0][1][:2]}" if qbad else "")
     ctx.ob("C11_search_execute_history", not hbad, "search", f"{len(hbad)} failing cases; first: {hbad[0][1][:2]}" if hbad else "")
     ctx.ob("C11_corr_handover", not st.bad.get("handover"), "correspondence", st.detail.get("handover", ""))
     ctx.ob("C11_corr_fold", not st.bad.get("fold"), "correspondence", st.detail.get("fold", ""))
